@@ -1,13 +1,16 @@
 (* C05 — Imports, re-exports and wildcards resolve exactly as CPython imports them.
    Property theorems only: each closed by [exact] of a lemma from Proofs/, followed by Print Assumptions.
 
-   Not proved (checked on every generated package instead, see harness/props/c05.py): that the real traversal order of
-   expand_exports / expand_wildcards (griffe_load) computes what the dependency-order schedule (griffe_sched) computes when no
-   gap event (findings F3, F8, F10) is reported.  The composition of the per-module theorems into
+   The real traversal of griffe.load (expand_exports over the whole tree, then expand_wildcards, each a recursion with a seen-set) is
+   shown to perform exactly the schedule's per-module steps, in the order in which it completes the modules
+   (C05_real_exports_phase_is_a_schedule, C05_real_wildcard_phase_is_a_schedule, C05_load_is_two_schedules).
+   Not proved (checked on every generated package instead, see harness/props/c05.py): that these two completion orders give the same
+   result as ONE dependency order with both steps per module (griffe_sched) when no gap event (findings F3, F8, F10) is reported.
+   The composition of the per-module theorems into
        agreeb top (griffe_sched top ms order) (py_import ms order) = true
    for all programs that satisfy the decidable side conditions wf_prog / wf_run is C05_composition below. *)
 From Coq Require Import List ZArith String Bool Arith.
-From Verif Require Import Lib.Sexp Model.C05_imports Model.C05_wf Proofs.C05_imports Proofs.C05_resolve Proofs.C05_main.
+From Verif Require Import Lib.Sexp Model.C05_imports Model.C05_wf Proofs.C05_imports Proofs.C05_resolve Proofs.C05_main Proofs.C05_real Proofs.C05_realw.
 Import ListNotations.
 Open Scope string_scope. Open Scope list_scope. Open Scope nat_scope.
 
@@ -273,3 +276,44 @@ Theorem C05_rebound_source_refuted :              (* F12: the source is bound ag
     (exists m, In m ms /\ refs_ok_from (ms_children m) [] (ms_body m) = false).
 Proof. exact rebound_source_refuted. Qed.
 Print Assumptions C05_rebound_source_refuted.
+
+(* ---- the real traversal against the schedule ----------------------------------------------------------------------------------- *)
+(* expand_exports (expx): for every table, every fuel, every module not yet entered -- no hypothesis: the traversal performs exactly the
+   schedule's export step for each module it enters, in the order in which it completes them *)
+Theorem C05_real_exports_phase_is_a_schedule :
+  forall fuel top mp s s',
+  expx fuel top mp s = Done s' -> ~ In mp (xseen s) ->
+  exists order, xt s' = fold_left (sched_exports_step (S (List.length (xt s) * 8 + 64)) top) order (xt s) /\
+                (forall m, In m order -> ~ In m (xseen s)) /\ In mp (xseen s').
+Proof. exact expx_is_a_schedule. Qed.
+Print Assumptions C05_real_exports_phase_is_a_schedule.
+
+(* expand_wildcards (expw): for every table with one entry per name in each module, every fuel: the traversal performs exactly the
+   schedule's wildcard step for each module it enters, in completion order, provided each wildcard import of a module names a module of
+   the table when that module is completed (ok_run; otherwise the `a/b/*` pseudo-member stays, which the schedule does not model) *)
+Theorem C05_real_wildcard_phase_is_a_schedule :
+  forall fuel top mp s s',
+  expw fuel top mp s = Done s' -> ~ In mp (wseen s) -> keys_ok (wt s) ->
+  exists order, (forall m, In m order -> ~ In m (wseen s)) /\
+                (ok_run (S (List.length (wt s) * 8 + 64)) top order (wt s) ->
+                 wt s' = fold_left (sched_wild_step (S (List.length (wt s) * 8 + 64)) top) order (wt s)).
+Proof. exact expw_is_a_schedule. Qed.
+Print Assumptions C05_real_wildcard_phase_is_a_schedule.
+
+Theorem C05_load_is_two_schedules :
+  forall top ms l,
+  griffe_load top ms = Done l ->
+  exists order_x order_w,
+    let fl := S (List.length ms * 8 + 64) in
+    let tx := fold_left (sched_exports_step fl top) order_x (initial_table ms) in
+    (ok_run fl top order_w tx -> l_table l = fold_left (sched_wild_step fl top) order_w tx).
+Proof. exact load_is_two_schedules. Qed.
+Print Assumptions C05_load_is_two_schedules.
+
+Theorem C05_load_is_two_schedules_not_vacuous :
+  let fl := S (List.length w13 * 8 + 64) in
+  let tx := fold_left (sched_exports_step fl "q") ox13 (initial_table w13) in
+  ok_run fl "q" ow13 tx /\
+  exists l, griffe_load "q" w13 = Done l /\ l_table l = fold_left (sched_wild_step fl "q") ow13 tx.
+Proof. exact load_two_schedules_not_vacuous. Qed.
+Print Assumptions C05_load_is_two_schedules_not_vacuous.
